@@ -21,7 +21,19 @@ def gen(rng, tier):
     wo = dict(ndays=rng.randint(8, 13) if freq == '1d' else rng.randint(6, 8), actions=True, suspend=rng.random() < 0.4, late_listing=rng.random() < 0.2,
               integral_splits=True, delist=False, nonmonotone_factors=rng.random() < 0.15)
     futs = rng.random() < 0.4
-    scn = scenario.gen_trading(rng, dict(freq=freq, world=wo, flows=False, stocks=2, futures=futs, actions_per_phase=(0, 0, 1), p_cancel=0.05, mgmt=False))
+    if rng.random() < 0.2:
+        # engine-made trades: a holding kept over a dividend record date with reinvestment on (the purchase is made before the open of the
+        # payable date), or sold out in between
+        scn = scenario.gen_div_capture(rng, dict(reinvest=rng.random() < 0.8, same_day_split=False))
+        scn['script'] = {k: [a for a in v if a['op'] not in ('deposit', 'withdraw', 'finance', 'repay')] for k, v in scn['script'].items()}
+        freq = '1d'
+        w_ = W.gen_world(random.Random(scn['world_seed']), scn['world_opts'])
+        dints_ = [W.dint(d) for d in w_.days]
+        ip_ = dints_.index(w_.dividends[W.STOCKS[0]][0][4])
+        if scn['start_i'] <= ip_ <= scn['end_i']:
+            scn['c07_extra_cuts'] = [dict(day=ip_, phase='before_trading'), dict(day=ip_, phase='open_auction')]      # the payable date
+    else:
+        scn = scenario.gen_trading(rng, dict(freq=freq, world=wo, flows=False, stocks=2, futures=futs, actions_per_phase=(0, 0, 1), p_cancel=0.05, mgmt=False))
     ids = list(scn['meta']['active_stocks']) + list(scn['meta']['futs'])
     script = scn['script']
     stock_minute = freq == '1m' and bool(scn['meta']['active_stocks'])
@@ -315,7 +327,7 @@ def analyse(scn, out, rng=None, ncuts=4):
     base = steps.normalise_ids(out['trace'])
     rng = rng or random.Random(scn['world_seed'])
     fixed = scn.get('c07_mut')
-    cuts = [fixed] if fixed else cuts_of(scn, out, rng, ncuts)
+    cuts = [fixed] if fixed else cuts_of(scn, out, rng, ncuts) + [dict(c) for c in scn.get('c07_extra_cuts', [])]
     for c in cuts:
         mut = dict(c)
         mut.setdefault('seed', rng.randint(0, 10 ** 9))
